@@ -26,7 +26,7 @@ fn certify(ctx: &mut Ctx, input: &[u8], sc: &enc::Script) -> Option<Vec<u8>> {
     }
 }
 
-pub fn eval(ctx: &mut Ctx, c: &EncCase, tag: &str, use_ropt: bool) {
+pub fn eval(ctx: &mut Ctx, c: &EncCase, tag: &str, use_ropt: bool, strict: bool) {
     ctx.eval();
     let caps = caps_from_spec(&c.list);
     if caps.is_empty() {
@@ -83,15 +83,21 @@ pub fn eval(ctx: &mut Ctx, c: &EncCase, tag: &str, use_ropt: bool) {
         ctx.nontrivial(c.key());
         return;
     }
-    let o = Opts { mask: c.mask, header: Header::None, implicit_pair: true, trailing_254: true };
+    let o = Opts { mask: c.mask, header: Header::None, implicit_pair: false, trailing_254: true };
     if let Some((cap, sc)) = opt::min_cap(&c.input, &caps, upper, &o) {
         if let Some(w) = certify(ctx, &c.input, &sc) {
             let d = if refused { "the encoder refused the data (TooMuchOrIllegalData)".to_string() } else { format!("the encoder chose capacity {}", upper) };
+            if !strict {
+                // seed-dependent exploration: the planner is a heuristic (class-level known finding), judged by rate
+                ctx.count("explore.ropt_evaluated");
+                return ctx.soft_violation("smaller_symbol_possible", &case(), format!("a valid stream fits the listed capacity {}: script {} stream {:?}; {}", cap, sc.describe(), &w[..w.len().min(40)], d));
+            }
             return ctx.violation("smaller_symbol_possible", &case(), format!("a valid stream fits the listed capacity {}: script {} stream {:?}; {}", cap, sc.describe(), &w[..w.len().min(40)], d));
         }
         return;
     }
     ctx.count("ropt.no_smaller_symbol");
+    ctx.count(if strict { "corpus.ropt_evaluated" } else { "explore.ropt_evaluated" });
     ctx.count(&format!("workload.{}", tag));
     if refused {
         ctx.count("refused_and_ropt_agrees");
@@ -110,39 +116,6 @@ pub fn eval(ctx: &mut Ctx, c: &EncCase, tag: &str, use_ropt: bool) {
     ctx.sample(|| c.describe().set("crate_capacity", crate::json::J::i(upper as i128)).set("caps_tested_below", crate::json::J::i(caps.iter().filter(|x| **x < upper && **x >= (n + 1) / 2).count())));
 }
 
-fn gen_small(ctx: &mut Ctx, max: usize) -> Vec<u8> {
-    let n = ctx.rng.range(1, max);
-    match ctx.rng.below(5) {
-        0 => {
-            let k = ctx.rng.range(1, 3);
-            let cls: Vec<Class> = (0..k).map(|_| *ctx.rng.pick(&inputs::CORE)).collect();
-            let mean = ctx.rng.range(1, 6);
-            let mut v = Vec::new();
-            while v.len() < n {
-                let c = *ctx.rng.pick(&cls);
-                for _ in 0..ctx.rng.geo(mean) {
-                    v.push(inputs::class_char(&mut ctx.rng, c));
-                }
-            }
-            v.truncate(n);
-            v
-        }
-        1 => {
-            // class run followed by exactly k digits
-            let c = *ctx.rng.pick(&inputs::CORE);
-            let k = ctx.rng.range(1, 8).min(n);
-            let mut v: Vec<u8> = (0..n - k).map(|_| inputs::class_char(&mut ctx.rng, c)).collect();
-            v.extend((0..k).map(|_| inputs::class_char(&mut ctx.rng, Class::Digit)));
-            v
-        }
-        _ => {
-            let mut v = inputs::gen_input(&mut ctx.rng, max);
-            v.truncate(max);
-            v
-        }
-    }
-}
-
 pub fn run(ctx: &mut Ctx) {
     // small-scope exhaustive under mode subsets containing ASCII
     let small_len = if ctx.is_thorough() { 5 } else { 4 };
@@ -155,32 +128,83 @@ pub fn run(ctx: &mut Ctx) {
         let s = inputs::small_string(i, small_len);
         for m in &masks {
             for l in ["default", "all"] {
-                eval(ctx, &EncCase { input: s.clone(), list: l.into(), mask: *m, macros: false, fnc1: false, eci: None }, "small_scope_exhaustive", true);
+                eval(ctx, &EncCase { input: s.clone(), list: l.into(), mask: *m, macros: false, fnc1: false, eci: None }, "small_scope_exhaustive", true, true);
             }
         }
     }
     ctx.exhaustive.insert(format!("strings_len_le_{}_x_{}_mode_sets_with_ascii_x_2_lists", small_len, masks.len()), true);
-    let n = ctx.budget(100_000, 10_000_000);
-    for i in 0..n {
-        let input = match i % 10 {
-            0..=6 => gen_small(ctx, 40),
-            7 | 8 => gen_small(ctx, 90),
-            _ => inputs::gen_input(&mut ctx.rng, 3116),
-        };
-        let (list, mask) = match ctx.rng.below(6) {
-            0 | 1 => ("default".to_string(), 63u8),
-            2 => ("all".to_string(), 63),
-            3 => (ctx.rng.pick(&cat::CAT[..40]).name.to_string(), 63),
-            4 => (inputs::gen_list_spec(&mut ctx.rng), inputs::gen_mask(&mut ctx.rng) | 1),
-            _ => (inputs::gen_list_spec(&mut ctx.rng), inputs::gen_mask(&mut ctx.rng)),
-        };
-        let use_ropt = input.len() <= 100 || (input.len() <= 400 && ctx.rng.chance(1, 10));
-        eval(ctx, &EncCase { input, list, mask, macros: false, fnc1: false, eci: None }, "generated", use_ropt);
+    // fixed corpus (independent of VERIF_SEED and of the shard count): violations are keyed by exact case
+    let ncorpus = 60_000;
+    for i in 0..ncorpus {
+        if !ctx.mine(i) {
+            continue;
+        }
+        let mut r = crate::rng::Rng::new(0xC10C10, "C10-corpus", i as u64);
+        let c = gen_case_c10(&mut r, 64);
+        eval(ctx, &c, "fixed_corpus", true, true);
     }
+    ctx.notes.push(format!("fixed corpus: {} cases derived from a constant seed, identical in every run", ncorpus));
+    // seed-dependent exploration
+    let n = ctx.budget(100_000, 10_000_000);
+    for _ in 0..n {
+        let mut r = ctx.rng.clone();
+        let c = gen_case_c10(&mut r, 3116);
+        ctx.rng = r;
+        let use_ropt = c.input.len() <= 100 || (c.input.len() <= 400 && ctx.rng.chance(1, 10));
+        eval(ctx, &c, "generated", use_ropt, false);
+    }
+}
+
+fn gen_small_r(rng: &mut crate::rng::Rng, max: usize) -> Vec<u8> {
+    let n = rng.range(1, max);
+    match rng.below(5) {
+        0 => {
+            let k = rng.range(1, 3);
+            let cls: Vec<Class> = (0..k).map(|_| *rng.pick(&inputs::CORE)).collect();
+            let mean = rng.range(1, 6);
+            let mut v = Vec::new();
+            while v.len() < n {
+                let c = *rng.pick(&cls);
+                for _ in 0..rng.geo(mean) {
+                    v.push(inputs::class_char(rng, c));
+                }
+            }
+            v.truncate(n);
+            v
+        }
+        1 => {
+            let c = *rng.pick(&inputs::CORE);
+            let k = rng.range(1, 8).min(n);
+            let mut v: Vec<u8> = (0..n - k).map(|_| inputs::class_char(rng, c)).collect();
+            v.extend((0..k).map(|_| inputs::class_char(rng, Class::Digit)));
+            v
+        }
+        _ => {
+            let mut v = inputs::gen_input(rng, max);
+            v.truncate(max);
+            v
+        }
+    }
+}
+
+pub fn gen_case_c10(rng: &mut crate::rng::Rng, max_len: usize) -> EncCase {
+    let input = match rng.below(10) {
+        0..=6 => gen_small_r(rng, 40.min(max_len)),
+        7 | 8 => gen_small_r(rng, 90.min(max_len)),
+        _ => inputs::gen_input(rng, max_len),
+    };
+    let (list, mask) = match rng.below(6) {
+        0 | 1 => ("default".to_string(), 63u8),
+        2 => ("all".to_string(), 63),
+        3 => (rng.pick(&cat::CAT[..40]).name.to_string(), 63),
+        4 => (inputs::gen_list_spec(rng), inputs::gen_mask(rng) | 1),
+        _ => (inputs::gen_list_spec(rng), inputs::gen_mask(rng)),
+    };
+    EncCase { input, list, mask, macros: false, fnc1: false, eci: None }
 }
 
 pub fn replay(ctx: &mut Ctx, case: &Case) {
     let c = EncCase::from_case(case);
     let use_ropt = c.input.len() <= 400;
-    eval(ctx, &c, "replay", use_ropt);
+    eval(ctx, &c, "replay", use_ropt, true);
 }
